@@ -52,7 +52,11 @@ START_ACTION = {
     "factor_iteration": "StartFactorIteration",
 }
 RESTORE_EVENTS = {"ExitNormal", "ExitOuterExc", "Raise", "Abandon"}
-PLOT = {"3body": {"mass": {"R_BC": {"display": "M(BC)"}}}, "4body": {"mass": {"R4": {"display": "M(R4)"}}}}
+PLOT = {"3body": {"mass": {"R_BC": {"display": "M(BC)"}}}, "4body": {"mass": {"R4": {"display": "M(R4)"}}}, "direct": {"mass": {"R_BC": {"display": "M(BC)"}}}}
+# "direct": the 3-body toy plus the non-resonant chain A -> B C D (tf_pwa's default 3-body decay AngSam3Decay): K = 4 chains,
+# chain 4 contains no resonance, so no set_used_res(names) can select it; set_used_chains can
+DIRECT_DECAY = {"A": [["R_BC", "D"], ["R_BD", "C"], ["R_CD", "B"], ["B", "C", "D"]]}
+NCHAINS = {"3body": 3, "4body": 3, "direct": 4}
 
 REC = None  # the recorder that is active now (hooks are inert without one)
 
@@ -70,6 +74,10 @@ class Bench(SessionReplayer):
         self.ff_method = "old"
         if model == "3body":
             d = models.toy_dict()
+            self.pname, self.res = "R_BD_mass", dict(RES)
+            ph = {}
+        elif model == "direct":
+            d = models.toy_dict(extra={"decay": copy.deepcopy(DIRECT_DECAY)})
             self.pname, self.res = "R_BD_mass", dict(RES)
             ph = {}
         else:
@@ -97,8 +105,9 @@ class Bench(SessionReplayer):
         self.vm = self.amp.vm
         models.set_reproducible_params(self.config, seed)
         self.p4 = models.phsp_p4(n_events, seed, **ph)
-        if len(self.dg.chains) != 3:
-            raise tlc.MachineryError("session model does not have three chains")
+        self.K = NCHAINS[model]
+        if len(self.dg.chains) != self.K:
+            raise tlc.MachineryError("session model %s does not have %d chains" % (model, self.K))
         self.probe = self.config.data.cal_angle(self.p4)
         self.data = self.config.data.cal_angle(self.p4)
         try:
@@ -113,6 +122,10 @@ class Bench(SessionReplayer):
             for r in c.inner:
                 self.res_chains.setdefault(str(r), set()).add(i + 1)
         self.reset()
+
+    def reset(self):
+        SessionReplayer.reset(self)
+        self.dg.set_used_chains(list(range(len(self.dg.chains))))  # every chain (the parent resets to three)
 
     def install_fault(self, at):
         """raise inside the k-th inner evaluation (DecayGroup.sum_amp); evaluations of the observer do not count"""
@@ -600,7 +613,7 @@ class Hooks:
         is_amp = lambda rec, a, kw: a and a[0] is rec.b.amp
         self._set(DecayGroup, "partial_weight", comp(DecayGroup.__dict__["partial_weight"], "partial_weight", pw_desc, is_dg))
         self._set(BaseAmplitudeModel, "partial_weight", comp(BaseAmplitudeModel.__dict__["partial_weight"], "partial_weight", pw_desc, is_amp))
-        self._set(DecayGroup, "partial_weight_interference", comp(DecayGroup.__dict__["partial_weight_interference"], "partial_weight_interference", lambda rec, a, kw: ({}, 3, False), is_dg))
+        self._set(DecayGroup, "partial_weight_interference", comp(DecayGroup.__dict__["partial_weight_interference"], "partial_weight_interference", lambda rec, a, kw: ({}, len(rec.b.dg.chains) * (len(rec.b.dg.chains) - 1) // 2, False), is_dg))
 
         def ff_desc(is_new):
             def d(rec, a, kw):
@@ -868,6 +881,107 @@ FAULT_FLOWS = ("cal_fitfractions_sel", "cal_fitfractions_new_sel", "cal_fitfract
 FOUR_BODY_FLOWS = ("cal_fitfractions", "cal_fitfractions_new_sel", "plot_partial_wave", "get_all_plotdatas", "factor_iteration", "get_all_partial_amp")
 
 
+# -- flows on the model with a direct (non-resonant) chain: K = 4, no resonance name selects chain 4 ---------------
+def d_ff_old_full(b):
+    with quiet():
+        b.config.cal_fitfractions()
+
+
+def d_ff_new_full(b):
+    with quiet():
+        b.config.cal_fitfractions(method="new").get_frac()
+
+
+def d_ff_no_grad_full(b):
+    from tf_pwa.fitfractions import cal_fitfractions_no_grad
+
+    with quiet():
+        cal_fitfractions_no_grad(b.amp, b.config.get_phsp_noeff(), res=[b.res[1], b.res[3]], batch=1000)
+
+
+def d_ff_old_sel(b):
+    b.amp.set_used_chains([1, 3])  # a restricted selection that contains the direct chain
+    with quiet():
+        b.config.cal_fitfractions(params=_fit_result_like(b), batch=70)
+
+
+def d_ff_new_sel(b):
+    b.amp.set_used_chains([0, 3])
+    with quiet():
+        b.config.cal_fitfractions(params=_fit_result_like(b), method="new", res=[b.res[2], b.res[3]]).get_frac()
+
+
+def d_partial_weight(b):
+    with quiet():
+        b.amp.partial_weight(b.probe)
+        b.amp.set_used_chains([0, 3])
+        b.amp.partial_weight(b.probe, combine=[[b.res[1]], [3], [b.res[2], 3]])
+        b.amp.partial_weight_interference(b.probe)
+
+
+def d_plotdatas(b):
+    with quiet():
+        b.config.get_all_plotdatas(res=[b.res[1], [b.res[2], b.res[3]]])
+        b.amp.set_used_chains([2, 3])
+        b.config.get_all_plotdatas(res=[b.res[1], [b.res[2], b.res[3]]])
+
+
+def d_temp_used_res(b):
+    """the interference plot: three temp_used_res blocks inside temp_params, from the full selection"""
+    with quiet():
+        b.config.plot_partial_wave_interf(b.res[1], b.res[2], prefix=os.path.join(b.dir, "fig", "d_"))
+
+
+def d_fit_fractions_app(b):
+    """tf_pwa.applications.fit_fractions, both routes, on the probe events"""
+    from tf_pwa.applications import fit_fractions
+
+    with quiet():
+        fit_fractions(b.amp, b.probe, res=[b.res[1], b.res[2]], batch=1000, method="old")
+        fit_fractions(b.amp, b.probe, res=[b.res[3]], batch=1000, method="new")
+
+
+DIRECT_FLOWS = {
+    "cal_fitfractions": d_ff_old_full,
+    "cal_fitfractions_new": d_ff_new_full,
+    "cal_fitfractions_no_grad": d_ff_no_grad_full,
+    "cal_fitfractions_sel": d_ff_old_sel,
+    "cal_fitfractions_new_sel": d_ff_new_sel,
+    "fit_fractions": d_fit_fractions_app,
+    "partial_weight": d_partial_weight,
+    "get_all_plotdatas": d_plotdatas,
+    "plot_partial_wave_interf": d_temp_used_res,
+}
+
+
+def record_direct(ctx, rng):
+    """the third real model: every flow, every flow with a fault (quick: the middle inner evaluation), a few user sessions"""
+    quick = ctx.tier == "quick"
+    t0 = time.time()
+    with quiet():
+        b = Bench(ctx.work, ctx.seed % 1000 + 6, "direct")
+    traces = []
+    for name, fn in DIRECT_FLOWS.items():
+        tr = record_flow(b, name + "@direct", fn)
+        traces.append(tr)
+        ks = [(tr["calls"] + 1) // 2] if quick else fault_positions(tr["calls"], ctx.tier, rng)
+        for k in ks:
+            if k >= 1:
+                traces.append(record_flow(b, "%s@direct!fault@%d" % (name, k), fn, fault_at=k))
+    n_lib = len(traces)
+    for k in range(6 if quick else 80):
+        ops = gen_program(rng, nchains=4, deeps=(1,))  # DecayChain.factor_iteration(deep >= 1) is not defined for the direct decay
+        traces.append(record_program(b, "user_direct_%d" % k, ops, rng.choice([None, None, 1, 2, 3, 4, 5, 7, 9])))
+    if not quick:
+        for k, (ops, fault) in enumerate(SCRIPTED):
+            ops = json.loads(json.dumps(ops).replace('["iter", 2,', '["iter", 1,'))
+            traces.append(record_program(b, "user_scripted_direct_%d" % k, ops, fault))
+    for tr in traces:
+        tr["model"] = "direct"
+    ctx.log("recorded %d library flows and %d user sessions on the model with a direct chain (K = 4) in %.1fs" % (n_lib, len(traces) - n_lib, time.time() - t0))
+    return traces
+
+
 def record_flow(b, name, fn, fault_at=None, **kw):
     """record one library flow; fault_at = k: the k-th inner evaluation (DecayGroup.sum_amp) of the flow raises"""
     b.reset()
@@ -933,7 +1047,7 @@ BLOCKS = ["temp_params_amp", "temp_params_vm", "mask_params", "temp_used_res", "
 COMPS = ["partial_weight", "partial_weight_combine", "interference", "ff_old", "ff_new", "ff_config", "plot_weights", "plotdatas", "partial_amp"]
 
 
-def gen_program(rng, depth=0, max_depth=3, restoring=False, length=None, tries=1):
+def gen_program(rng, depth=0, max_depth=3, restoring=False, length=None, tries=1, nchains=3, deeps=(1, 2, 2, 3)):
     ops = []
     n = length if length is not None else rng.randint(1, 3)
     for _ in range(n):
@@ -941,7 +1055,7 @@ def gen_program(rng, depth=0, max_depth=3, restoring=False, length=None, tries=1
         if depth == 0 and r < 0.25:
             k = rng.choice(["chains", "res", "coord", "bound", "setp"])
             if k == "chains":
-                ops.append(["chains", sorted(rng.sample([0, 1, 2], rng.randint(1, 3)))])
+                ops.append(["chains", sorted(rng.sample(list(range(nchains)), rng.randint(1, nchains)))])
             elif k == "res":
                 ops.append(["res", sorted(rng.sample([1, 2, 3], rng.randint(1, 3)))])
             elif k == "coord":
@@ -955,13 +1069,13 @@ def gen_program(rng, depth=0, max_depth=3, restoring=False, length=None, tries=1
             a = rng.randint(1, 3)
             if kind == "temp_used_res":
                 a = sorted(rng.sample([1, 2, 3], rng.randint(1, 2)))
-            body = gen_program(rng, depth + 1, max_depth, restoring or kind in RESTORING, tries=tries)
+            body = gen_program(rng, depth + 1, max_depth, restoring or kind in RESTORING, tries=tries, nchains=nchains, deeps=deeps)
             ops.append(["with", kind, a, body])
         elif r < 0.65 and depth < max_depth:
-            body = gen_program(rng, depth + 1, max_depth, restoring, length=rng.randint(0, 2), tries=tries)
-            ops.append(["iter", rng.choice([1, 2, 2, 3]), body, rng.choice([None, None, 0, 1]), False])
+            body = gen_program(rng, depth + 1, max_depth, restoring, length=rng.randint(0, 2), tries=tries, nchains=nchains, deeps=deeps)
+            ops.append(["iter", rng.choice(list(deeps)), body, rng.choice([None, None, 0, 1]), False])
         elif 0.65 <= r < 0.72 and depth > 0 and tries > 0:
-            ops.append(["try", gen_program(rng, depth, max_depth, restoring, length=rng.randint(1, 2), tries=tries - 1)])
+            ops.append(["try", gen_program(rng, depth, max_depth, restoring, length=rng.randint(1, 2), tries=tries - 1, nchains=nchains, deeps=deeps)])
         elif 0.72 <= r < 0.80 and depth > 0:
             ops.append(["raise"])
         elif 0.80 <= r < 0.86 and restoring:
@@ -1203,14 +1317,14 @@ def _quiet_call(f, *a):
 # --------------------------------------------------------------------------
 # validation
 # --------------------------------------------------------------------------
-def cfg_text(max_depth, max_stack, code=None):
+def cfg_text(max_depth, max_stack, code=None, K=3):
     code = code or sd.CODE
     b = lambda x: "TRUE" if x else "FALSE"
     return (
-        "CONSTANTS\n K = 3\n PV = {1,2}\n MaxDepth = %d\n MaxStack = %d\n Finally = %s\n ExactRestore = %s\n RawSave = %s\n KeyedGraph = %s\n None = None\n"
+        "CONSTANTS\n K = %d\n PV = {1,2}\n MaxDepth = %d\n MaxStack = %d\n Finally = %s\n ExactRestore = %s\n RawSave = %s\n KeyedGraph = %s\n None = None\n"
         "INIT TraceInit\nNEXT TraceNext\nCHECK_DEADLOCK FALSE\n"
         "INVARIANT Transparent\nINVARIANT NotFullHonest\nINVARIANT SelectionSound\nINVARIANT GeneralisationsAgree\nPOSTCONDITION TracePost\n"
-        % (max_depth, max_stack, b(code["Finally"]), b(code["ExactRestore"]), b(code["RawSave"]), b(code.get("KeyedGraph", True)))
+        % (K, max_depth, max_stack, b(code["Finally"]), b(code["ExactRestore"]), b(code["RawSave"]), b(code.get("KeyedGraph", True)))
     )
 
 
@@ -1231,8 +1345,8 @@ class Verdict:
         self.detail = None
 
 
-def validate(ctx, traces, label, code=None):
-    """one TLC run over all traces -> (tlc result, [Verdict])"""
+def validate(ctx, traces, label, code=None, K=3):
+    """one TLC run over all traces (of models with K chains) -> (tlc result, [Verdict])"""
     if not traces:
         raise tlc.MachineryError("no traces recorded")
     nesting = 1
@@ -1252,7 +1366,7 @@ def validate(ctx, traces, label, code=None):
         json.dump({"traces": [_clean(tr) for tr in traces]}, f)
     cfg = os.path.join(ctx.work, "strace_%s.cfg" % label)
     with open(cfg, "w") as f:
-        f.write(cfg_text(2 * longest + 50, nesting + 2, code))
+        f.write(cfg_text(2 * longest + 50, nesting + 2, code, K=K))
     r = tlc.run("SessionTrace", cfg, work=ctx.work, workers=1, env={"IN_FILE": inp}, timeout=900, expect_violation=True)
     if r.violation:
         raise tlc.MachineryError("SessionTrace: invariant %s violated in a state TLC reached (initial state of a trace?)\n%s" % (r.violation, r.stdout[-1500:]))
@@ -1448,6 +1562,11 @@ def _run(ctx):
     r, verdicts = validate(ctx, allt, "main")
     tlc_wall = time.time() - t1
     ctx.tlc(r, "SessionTrace %d traces" % len(allt))
+    direct = record_direct(ctx, rng)
+    r4, v4 = validate(ctx, direct, "direct", K=4)
+    ctx.tlc(r4, "SessionTrace K=4 %d traces" % len(direct))
+    verdicts = verdicts + v4
+    traces = traces + direct
     suite = []
     if ctx.tier == "thorough":
         suite = record_suite(ctx)
@@ -1544,8 +1663,9 @@ def parse_flow(name):
         name, k = name.split("!fault@")
         fault = int(k)
     model = "3body"
-    if name.endswith("@4body"):
-        name, model = name[: -len("@4body")], "4body"
+    for mdl in ("4body", "direct"):
+        if name.endswith("@" + mdl):
+            name, model = name[: -len("@" + mdl)], mdl
     return name, model, fault
 
 
@@ -1572,13 +1692,14 @@ def replay(ctx, path):
             tr = record_flow(b, d["flow"], flow_fit, fault_at=fault)
         else:
             model = d.get("model", model)
-            b = Bench(ctx.work, ctx.seed % 1000 + (1 if model == "3body" else 2), model)
+            with quiet():
+                b = Bench(ctx.work, ctx.seed % 1000 + {"3body": 1, "4body": 2, "direct": 6}[model], model)
             if "program" in d:
                 tr = record_program(b, d["flow"], d["program"], d.get("fault_at"))
             else:
-                tr = record_flow(b, d["flow"], LIB_FLOWS[base][0], fault_at=fault)
+                tr = record_flow(b, d["flow"], (DIRECT_FLOWS[base] if model == "direct" else LIB_FLOWS[base][0]), fault_at=fault)
             tr["model"] = model
-        r, (v,) = validate(ctx, [tr], "replay")
+        r, (v,) = validate(ctx, [tr], "replay", K=NCHAINS.get(tr.get("model", "3body"), 3))
         ctx.tlc(r, "SessionTrace replay")
         ctx.count(len(tr["ev"]), distinct_key=("replay", j["key"]))
         ctx.count(1, distinct_key=("replay2", j["key"]))
